@@ -6,7 +6,7 @@ from __future__ import annotations
 import itertools
 
 from .. import common, refcodec, shapes, cppbuild
-from ..schema import U, I, F32, F64, Arr, St, enum_with_max, Hoister, print_schema, struct_decl, type_str
+from ..schema import STR, U, I, F32, F64, Arr, St, enum_with_max, Hoister, print_schema, struct_decl, type_str
 from ..common import Stats, Run, pmap, chunks
 from .cpp import to_json_value, from_json_value
 
@@ -21,6 +21,10 @@ PAYLOADS = [
     ("enumarr", (enum_with_max(5), Arr(U(4), 2), St(I(6), U(2)))),
     ("f64", (F64,)),
     ("unal", (U(4), U(8), U(4), U(16))),
+    # payloads that can exceed the 8 data bytes of a frame: always (72 bits), or depending on the value (a string)
+    ("over", (U(64), U(8))),
+    ("text", (STR,)),
+    ("over2", (U(8), Arr(U(16), 4))),
 ]
 IDS = (0, 1, 100, 2047)
 BUSES = ("a", "ab", "abc", "abcd")
@@ -85,6 +89,12 @@ def run_schema(item):
         st = structs[name]
         for v in shapes.struct_values(st, json_safe=True, limit=12):
             ref = refcodec.encode(env, name, v)
+            if len(ref) > 8:
+                # no frame can carry this value: the wrapper has to refuse, not return a frame
+                for which in ("static", "dynamic"):
+                    reqs.append({"op": "can_enc", "which": which, "name": name, "value": to_json_value(st, v, which == "dynamic")})
+                    index.append(("enc-over", which, name, v, {"sid": fid, "bus": pad_bus(bus), "dlc": len(ref), "data": list(ref)}, None))
+                continue
             frame = {"sid": fid, "bus": pad_bus(bus), "dlc": len(ref), "data": list(ref) + [0] * (8 - len(ref))}
             for which in ("static", "dynamic"):
                 reqs.append({"op": "can_enc", "which": which, "name": name, "value": to_json_value(st, v, which == "dynamic")})
@@ -92,7 +102,10 @@ def run_schema(item):
                 reqs.append({"op": "can_dec", "which": which, "frame": frame})
                 index.append(("dec", which, name, v, frame, (name, v)))
         # non-matching frames, built from the encoding of the first value
-        v0 = shapes.struct_values(st, json_safe=True, limit=12)[-1]
+        v0 = [x for x in shapes.struct_values(st, json_safe=True, limit=12) if len(refcodec.encode(env, name, x)) <= 8]
+        if not v0:
+            continue
+        v0 = v0[-1]
         ref0 = refcodec.encode(env, name, v0)
         base = {"sid": fid, "bus": pad_bus(bus), "dlc": len(ref0), "data": list(ref0) + [0] * (8 - len(ref0))}
         variants = []
@@ -130,7 +143,14 @@ def run_schema(item):
             S.add("outcomes", "crash")
             S.violation("C18.run", "C18.run/crash/%s" % which, inp, expected="answer", actual=a)
             break
-        if op == "enc":
+        if op == "enc-over":
+            if "null" in a or "exc" in a:
+                S.add("outcomes", "oversize-refused")
+                S.add("nontrivial", (idx, name, str(v)))
+            else:
+                S.add("outcomes", "oversize-framed")
+                S.violation("C18.encode", "C18.encode/payload-over-8-bytes-not-refused/%s" % which, inp, expected="no frame (the canonical payload has %d bytes)" % frame["dlc"], actual=a)
+        elif op == "enc":
             got = a.get("frame")
             if got == frame:
                 S.add("outcomes", "enc-ok:%d:%d" % (frame["dlc"], len([c for c in frame["bus"] if c])))
